@@ -638,7 +638,10 @@ def collision_expect(w, i, kind):
       e1 = abs(geomref.sdf(s1, fr))
       e2 = abs(geomref.sdf(s2, to))
       sep = float(np.linalg.norm(to - fr))
-      if e1 > tol_geo * 10 * sc or e2 > tol_geo * 10 * sc:
+      # surface membership is asserted for separated pairs only: for penetrating pairs the witness points of the
+      # narrow phase are not unique (arbitrary direction for concentric shapes - e.g. a sphere centred on a capsule
+      # axis gets a witness inside the capsule -, EPA tolerance); that is C13/C15 territory
+      if dist > 0 and (e1 > tol_geo * 10 * sc or e2 > tol_geo * 10 * sc):
         return False, 'fromto end points not on the surfaces of geom1/geom2: sdf1(from)=%g sdf2(to)=%g' % (e1, e2)
       if abs(sep - abs(dist)) > tol_geo * 10 * sc:
         return False, '|to-from|=%.12g but |signed distance|=%.12g' % (sep, abs(dist))
